@@ -188,4 +188,26 @@ theorem C08_funcs_pkg_writes_only_known :
     Gen.funcPkgWrites_ok = true ∧
     Gen.funcPkgWrites.all (fun w => [("debug_func.go:Func", "pugjs.AllowDeep")].contains w) = true := by decide
 
+/-- the package-level variables of the packages a render runs through, as they are known and accounted for: two metric
+descriptors and a tag key (opencensus, written by nobody), the logger pair set once at start-up (`setLoggerInfos`), the
+constant format of text nodes, reflect's zero Value, the value-function table built once from the builtin table, the
+translation trace writer (never assigned), and the `AllowDeep` flag (recorded finding of C08). -/
+def knownPkgState : List (String × String) :=
+  [("pugjs/engine.go:debugMode", "literal false"), ("pugjs/engine.go:loggerInstance", "zero flamingo.Logger"),
+   ("pugjs/engine.go:rt", "call stats.Int64"), ("pugjs/engine.go:statRateLimitWaitTime", "call stats.Float64"),
+   ("pugjs/engine.go:templateKey", "call tag.NewKey"), ("pugjs/parse/node.go:textFormat", "literal"),
+   ("pugjs/tpl_exec.go:zero", "zero reflect.Value"), ("pugjs/tpl_funcs.go:builtinFuncs", "call createValueFuncs"),
+   ("pugjs/transform_js_.go:writeTranslations", "zero io.Writer"), ("pugjs/types.go:AllowDeep", "literal true")]
+
+/-- **C08 (no hidden package state).** The inventory of package-level variables of pugjs, pugjs/parse, templatefunctions and the
+module root - regenerated from the Go source on every run, constant tables left out - holds nothing but the known entries: no
+cache, pool, memo table, once-guard or flag has been added through which one render (or one process history) could reach
+another. (A variable that is added reopens this obligation whatever the generators draw; the write-set theorem above covers
+assignments, this one covers state that is changed through method calls such as `sync.Map.Store` or `sync.Pool.Put`.) -/
+theorem C08_package_state_inventory :
+    Gen.pkgState_ok = true ∧ Gen.pkgState.all (fun v => knownPkgState.contains v) = true := by
+  constructor
+  · decide
+  · decide
+
 end Pug.Props.C08
